@@ -66,13 +66,13 @@ def variants():
 
     for up in (True, False):
         add("next_up" if up else "next_down", 1, "next",
-            lambda ctx, fmt, x, up=up: fpa.next(ctx, x, up=up, dtype=blocks.DTYPES[fmt]),
-            lambda fmt, a, up=up: fpa.next(np_ctx(fmt), *a, up=up), opts=dict(up=up))
+            lambda ctx, fmt, x, up=up: fpa.next(ctx, x, dtype=blocks.DTYPES[fmt], **({} if up else dict(up=False))),
+            lambda fmt, a, up=up: fpa.next(np_ctx(fmt), *a, **({} if up else dict(up=False))), opts=dict(up=up))
     for inv in (False, True):
         # (a bool-returning API cannot be traced with an explicit dtype: the dtype-agnostic path is what code generation uses)
         add("is_power_of_two" + ("_inv" if inv else ""), 1, "ispow2",
-            lambda ctx, fmt, x, inv=inv: fpa.is_power_of_two(ctx, x, invert=inv),
-            lambda fmt, a, inv=inv: fpa.is_power_of_two(np_ctx(fmt), *a, invert=inv), opts=dict(invert=inv))
+            lambda ctx, fmt, x, inv=inv: fpa.is_power_of_two(ctx, x, **(dict(invert=True) if inv else {})),
+            lambda fmt, a, inv=inv: fpa.is_power_of_two(np_ctx(fmt), *a, **(dict(invert=True) if inv else {})), opts=dict(invert=inv))
 
     def with_consts(fn, names):
         def traced(ctx, fmt, *a):
@@ -105,10 +105,13 @@ def variants():
             for pz in ((True, False) if alg == "a9" else (True,)):
                 nm = f"fma_{alg}" + ("" if fix else "_nofix") + ("" if pz else "_nz")
                 kw = dict(algorithm=alg, fix_overflow=fix, possibly_zero_z=pz)
-                add_generated(nm, 3, "fma", lambda ctx, fmt, x, y, z, kw=kw: apmath.fma(ctx, x, y, z, **kw), kw)
+                # options equal to the documented defaults (algorithm="a7", fix_overflow=True, possibly_zero_z=True) go by omission
+                ckw = {k: v for k, v in kw.items() if dict(algorithm="a7", fix_overflow=True, possibly_zero_z=True)[k] != v}
+                add_generated(nm, 3, "fma", lambda ctx, fmt, x, y, z, ckw=ckw: apmath.fma(ctx, x, y, z, **ckw), kw)
     for alg in ("a7", "a8", "a9", "apmath"):
         kw = dict(algorithm=alg)
-        add_generated(f"fma_real_{alg}", 3, "fma", lambda ctx, fmt, x, y, z, kw=kw: apmath_algorithms.fma_real(ctx, x, y, z, **kw),
+        ckw = {} if alg == "a7" else kw
+        add_generated(f"fma_real_{alg}", 3, "fma", lambda ctx, fmt, x, y, z, ckw=ckw: apmath_algorithms.fma_real(ctx, x, y, z, **ckw),
                       dict(kw, fix_overflow=True, possibly_zero_z=True))
     return V
 
